@@ -36,7 +36,7 @@ class XG:
             # parenthesised as a whole: a following `- y` would otherwise become part of the shift count
             return '((%s & 15) %s %s)' % (self.ie(d - 1), r.choice(['<<', '>>']), r.choice(['1', '2']))
         if k < .83:
-            return '((%s & 255) %% %s)' % (self.ie(d - 1), r.choice(['3', '7']))
+            return '(((%s) & 255) %% %s)' % (self.ie(d - 1), r.choice(['3', '7']))      # (the mask covers the whole operand: | and ^ bind weaker than &)
         if k < .92:
             operand = self.ie(d - 1)
             if '%' in operand:
@@ -137,7 +137,7 @@ def run(ctx: Ctx) -> None:
     for i in range(N):
         # every extended construct at least once per run: two of them are forced into each program, in turn
         forced = [progen.EXT_KINDS[(2 * i + k) % len(progen.EXT_KINDS)] for k in range(2)]
-        p = progen.gen_program(rnd, rnd.randint(1, 3), dict(ext=True, force_ext=forced, force_subclass=(i % 5 == 0)))      # every fifth program: a class hierarchy three levels deep
+        p = progen.gen_program(rnd, rnd.randint(1, 3), dict(ext=True, force_ext=forced, force_subclass=(i % 5 == 0), force_libname=(i % 5 == 0)))      # every fifth program: a class hierarchy three levels deep
         ext_used = any(k.startswith('ext_') for k in p.constructs)
         ctx.case(p.src, ext_used)
         for k in p.constructs:
@@ -194,6 +194,7 @@ KNOWN_SHAPES = [
     ("class K:\n\ta: int\n\tb: int\n\n\tdef __init__(self, n: int) -> None:\n\t\tself.a = n\n\t\tself.a += 1\n\t\tself.b = self.a\n\ndef ci(n: int) -> int:\n\tk = K(n)\n\treturn k.a * 100 + k.b\n", [('ci', [(2,), (5,)], 'int')], 'ctor-statement-order'),
     ("def fl(n: int) -> int:\n\tt = 0\n\tfor x in [1, 2, n]:\n\t\tt += x\n\treturn t\n", [('fl', [(2,), (5,)], 'int')], 'for-over-list-literal'),
     ("def lu(a: int) -> bool:\n\txs = [a, 1]\n\treturn len(xs) < a - 5\n", [('lu', [(2,), (9,)], 'bool')], 'len-unsigned-compare'),
+    ("def rr(n: int) -> int:\n\tt = 0\n\tfor i in range(n):\n\t\tn = n - 1\n\t\tt += 1\n\treturn t\n", [('rr', [(4,), (7,)], 'int')], 'range-bound-reevaluated'),
     # repaired shapes, kept as regression inputs
     ("def cq(n: int, d: int) -> int:\n\txs = [n, d]\n\ti = n + 1\n\tdef inner(b: int) -> int:\n\t\tys = [idx + b for idx in xs]\n\t\treturn len(ys) + ys[1] + d + i\n\treturn inner(1)\n", [('cq', [(2, 3), (5, 1)], 'int')], 'closure-with-comprehension'),
     ("def cc(n: int) -> int:\n\tdef one(q: int) -> int:\n\t\treturn q + n\n\tdef two(q: int) -> int:\n\t\treturn one(q) * 2\n\tw = (lambda q: one(q) + 1)(n)\n\treturn two(n) + w\n", [('cc', [(2,), (5,)], 'int')], 'closure-calls-closure'),
